@@ -1806,10 +1806,11 @@ class SpaceUpdater(SharedSpaceOperations):
             nodes_removed.append(child)
             self._remove_hook(self._graph, child)
 
-        for _, v in nx.edge_bfs(self.manager._graph, node):
-            self._instructions.append(
-                Instruction(self._update_derived_space, (v,))
-            )
+        for _, v in nx.edge_bfs(self.manager._graph, nodes_removed):
+            if v not in nodes_removed:
+                self._instructions.append(
+                    Instruction(self._update_derived_space, (v,))
+                )
 
         # Release the values bound to the references defined in the
         # deleted spaces, so that their IOSpecs do not outlive them.
